@@ -16,6 +16,14 @@ def queue_spec(seed):
     for i in range(nv):
         r = rnd.choice([0.0, 0.001, 0.002, 0.004, rnd.uniform(0.0, 0.03), rnd.uniform(0.0, 0.03), rnd.uniform(0.0, 0.03)])
         vehicles.append({"id": f"v{i:02d}", "lat": round(sl + rnd.choice([-1, 1]) * r, 6), "lon": round(so + rnd.choice([-1, 1]) * r, 6), "mech": "tiny", "soc": round(rnd.uniform(0.15, 0.3), 4)})
+    full = seed % 4 == 2
+    if full:
+        # a few vehicles that are full and stay full for a while (low idle drain below): a depot-style controller sends them
+        # to the station anyway, so the queue holds vehicles that have nothing to charge when their turn comes
+        for v in vehicles[: rnd.randint(2, 4)]:
+            v["soc"] = 1.0
+            r = rnd.choice([0.0, 0.0005, 0.001, 0.002])  # close by: the drive must not cost the 0.1 kWh that "full" tolerates
+            v["lat"], v["lon"] = round(sl + r, 6), round(so - r, 6)
     stations = [{"id": "s1", "lat": sl, "lon": so, "plugs": [{"charger": plug, "count": rnd.choice([1, 1, 2])}]}]
     if rnd.random() < 0.4:
         stations[0]["plugs"].append({"charger": "LEVEL_1" if plug != "LEVEL_1" else "LEVEL_2", "count": 1, "on_shift": False})
@@ -54,7 +62,7 @@ def queue_spec(seed):
                 "nominal_max_charge_kw": 50,
                 "charge_taper_cutoff_kw": 10,
                 "nominal_watt_hour_per_mile": 225,
-                "idle_kwh_per_hour": 0.8,
+                "idle_kwh_per_hour": 0.02 if full else 0.8,
             }
         },
         "chargers": None,
@@ -69,7 +77,7 @@ def build_cases(tier, seed):
     for i in range(n):
         s = seed * 100000 + 18000 + i
         spec, steps = queue_spec(s)
-        ctrl = {"stack": ["ChargingFleetManager", {"benign_queue": {"p_leave": [0.0, 0.03, 0.08][i % 3], "p_abandon": [0.0, 0.02, 0.05][(i // 3) % 3], "p_resend": [0.0, 0.0, 0.3, 0.6][i % 4]}}]}
+        ctrl = {"stack": ["ChargingFleetManager", {"benign_queue": {"p_leave": [0.0, 0.03, 0.08][i % 3], "p_abandon": [0.0, 0.02, 0.05][(i // 3) % 3], "p_resend": [0.0, 0.0, 0.3, 0.6][i % 4], "p_topup": 0.15 if s % 4 == 2 else 0.0}}]}
         cases.append(trace_case("C18", i, s, {}, ctrl, steps, ["C18"], spec=spec, opts=({"cosim_ops": {"every": 12, "kinds": ["append_plugs"]}} if i % 4 == 3 else {})))
     return cases
 
@@ -79,11 +87,11 @@ main = simple_main(
     build_cases,
     "c18_grants_with_others_waiting",
     {
-        "quick": {"c18_grants": 300, "c18_grants_with_others_waiting": 200, "c18_overtake_opportunities": 300, "c18_tie_opportunities": 20, "c18_abandonments": 20},
-        "thorough": {"c18_grants": 3500, "c18_grants_with_others_waiting": 2500, "c18_overtake_opportunities": 4000, "c18_tie_opportunities": 300, "c18_abandonments": 300},
+        "quick": {"c18_grants": 300, "c18_grants_with_others_waiting": 200, "c18_overtake_opportunities": 300, "c18_tie_opportunities": 20, "c18_abandonments": 20, "c18_grants_to_full_vehicles": 4},
+        "thorough": {"c18_grants": 3500, "c18_grants_with_others_waiting": 2500, "c18_overtake_opportunities": 4000, "c18_tie_opportunities": 300, "c18_abandonments": 300, "c18_grants_to_full_vehicles": 100},
     },
     "6-12 nearly empty vehicles at staggered distances from a station with 1-2 plugs of one type (same-step arrivals included), the real ChargingFleetManager sends them there; a benign controller makes charging vehicles "
-    "leave and queued vehicles abandon. Join step = first step in which the vehicle is seen in that queue (observed, never read from enqueue_time). A grant to a later joiner while an earlier one keeps waiting is a violation. "
+    "leave and queued vehicles abandon, repeats the go-and-charge instruction to waiting vehicles, and (every fourth scenario) sends full vehicles to the busy plug as well. Join step = first step in which the vehicle is seen in that queue (observed, never read from enqueue_time). A grant to a later joiner while an earlier one keeps waiting is a violation. "
     "non-trivial = at least one plug granted while others were waiting; distinct = case hash",
     ["membership- and plug-valid arrivals only (DESIGN 6)", "vehicles that arrive while a plug is free never enter the queue and are outside the statement"],
 )
